@@ -543,8 +543,11 @@ impl Shadow {
                     "#{} destructed ({}) at seq {} inside the critical section of t{} which holds a Snapshot of it (from {}, made at seq {})",
                     o, path_name(depth), seq, h.tid, h.src.name(), h.seq
                 );
-                // C05: "the reference they return obeys C01/C02" for snapshots that came from an upgrade
-                let props = if h.src == Src::WsnapUpgrade { "C02,C05" } else { "C02" };
+                // C05: "the reference they return obeys C01/C02" for snapshots that came from an upgrade.
+                // C01: `Snapshot::counted` is one of the ways of obtaining an owner the property
+                // lists, and its precondition is exactly a valid Snapshot: from here on the holder
+                // can turn its Snapshot into an Rc of an object whose destructor has run.
+                let props = if h.src == Src::WsnapUpgrade { "C02,C05,C01" } else { "C02,C01" };
                 sim().violation(props, "destruct-under-snapshot", &format!("destruct-under-snapshot/{}/src={}", path_name(depth), h.src.name()), &det);
             }
         }
